@@ -54,6 +54,7 @@ package models
 //@   loop 1:
 //@     invariant forall k: uint32 :: k in V ==> k in s.participants
 //@     invariant forall p: *Participant, m: int :: delivered(p, m) == old(delivered(p, m)) + ite(m == protoMsg && p != nil && p.ID in V && s.participants[p.ID] == p && p != sender, 1, 0)
+//@     emits {C02,C14} [when $p != sender =>> sendmsg($p.Responder, _)]
 
 //@ func (*models.Session).GetParticipants
 //@   property C01
@@ -294,6 +295,7 @@ package models
 //@     invariant forall q: *Participant, m: int :: delivered(q, m) == old(delivered(q, m)) + ite(m == protoMsg && q != nil && q != sender && q.ID in $isParticipantHandled && member(s, q), 1, 0)
 //@     invariant forall x: uint32 :: x in $isParticipantHandled ==> 0 <= hidx[x] && hidx[x] <= $rangeindex && $participants[hidx[x]].ID == x
 //@     invariant forall j: int :: 0 <= j && j <= $rangeindex && $participants[j] != sender ==> $participants[j].ID in $isParticipantHandled
+//@     emits {C13,C14} [when $p != sender && !($p.ID in $isParticipantHandled) =>> sendmsg($p.Responder, _)]
 
 // ---------------------------------------------------------------------------------------------
 // Session representation invariant
